@@ -7,7 +7,8 @@ Inductive hop :=
 | HSubmit (who : Z) (ct : ccontent)
 | HVote (who id opt : Z)
 | HEnd
-| HExt (e : cext).
+| HExt (e : cext)
+| HRotate (old new : Z).     (* MsgRotateRecoveryAddress: another module rewrites the vote store *)
 
 Record obs := mkO {
   o_res : Z;                                      (* 0 accepted, 1 rejected, 2 panic *)
@@ -16,6 +17,8 @@ Record obs := mkO {
   o_ev : list (Z * Z);                            (* events: (1, id) add_to_enactment, (2, id) remove_enactment *)
   o_props : list (Z * (Z * Z) * (bool * bool));   (* every proposal: id, (result, exec), (in active queue, in enactment queue) *)
   o_votes : list (Z * Z);                         (* HVote: votes of the target proposal afterwards, sorted by voter *)
+  o_fvotes : list (Z * list (Z * Z));             (* stored votes (sorted by voter) of the proposals finalised in this HEnd step;
+                                                     after HRotate: of every proposal *)
   o_world : option world }.                       (* the state outside the lifecycle, when it changed *)
 
 Inductive c08_case := CHist (w0 : world) (steps : list (Z * Z * hop * obs)).
@@ -56,6 +59,7 @@ Definition to_op (h : hop) : cop :=
   | HVote who id opt => OVote who id opt
   | HEnd => OEndBlock
   | HExt e => OExt e
+  | HRotate old new => ORotate old new
   end.
 
 Definition applied_delta (old new : list (event world ccontent)) : list (Z * bool) :=
@@ -87,6 +91,7 @@ Definition step_matches (s : cstate) (st : Z * Z * hop * obs) : bool * cstate :=
        && list_eqb zz_eqb (events_of s s') (o_ev o)
        && props_match s' (o_props o)
        && (match hp with HVote _ id _ => list_eqb zz_eqb (sort_votes (votes s' id)) (o_votes o) | _ => true end)
+       && forallb (fun e : Z * list (Z * Z) => list_eqb zz_eqb (sort_votes (votes s' (fst e))) (snd e)) (o_fvotes o)
        && (match o_world o with Some w => world_eqb (app s') w | None => world_eqb (app s') (app s) end),
        s')
   | Err _ =>
@@ -250,6 +255,11 @@ Definition bump_applied (l : list (Z * bool)) (recs : list prec) : list prec :=
   map (fun r => mkR (r_id r) (r_ct r) (r_vend r) (r_eend r) (r_minv r) (r_res r) (r_fin r)
                     (r_napplied r + List.length (filter (fun a : Z * bool => Z.eqb (fst a) (r_id r)) l))%nat (r_votes r)) recs.
 
+Definition move_vote (old new : Z) (vs : list (Z * Z)) : list (Z * Z) :=
+  match find (fun v => fst v =? old) vs with
+  | Some v => ins_vote new (snd v) (filter (fun x => negb (fst x =? old)) vs)
+  | None => vs end.
+
 Definition ck_step (k : ck) (st : Z * Z * hop * obs) : list string * ck :=
   let '(t, h, hp, o) := st in
   let w := k_w k in
@@ -262,6 +272,7 @@ Definition ck_step (k : ck) (st : Z * Z * hop * obs) : list string * ck :=
   let recs2 := bump_applied (o_applied o) recs1 in
   let wc := match hp with
             | HExt _ => []                                               (* arbitrary other activity *)
+            | HRotate _ _ => []                                          (* the actor record moves: not C08's business *)
             | HEnd => cl (world_eqb w' (expected_world (k_recs k) w (o_applied o)))
                          (String.append "atomic" (applied_kinds (k_recs k) w w' (o_applied o)))
             | _ => cl (world_eqb w' w) "effect_without_enactment" end in
@@ -289,9 +300,23 @@ Definition ck_step (k : ck) (st : Z * Z * hop * obs) : list string * ck :=
                upd_rec (mkR (r_id r) (r_ct r) (r_vend r) (r_eend r) (r_minv r) (r_res r) (r_fin r) (r_napplied r) vs) recs2)
             else (cl (list_eqb zz_eqb (r_votes r) (o_votes o)) "rejected_vote_recorded", recs2)
         end
+    | HRotate old new =>
+        (* the PERSON continues under the new address: its last accepted vote goes with it *)
+        if accepted then
+          ([], map (fun r => mkR (r_id r) (r_ct r) (r_vend r) (r_eend r) (r_minv r) (r_res r) (r_fin r) (r_napplied r)
+                                 (move_vote old new (r_votes r))) recs2)
+        else ([], recs2)
     | _ => ([], recs2)
     end in
-  (tc ++ ac ++ wc ++ oc ++ rej ++ sc, mkK w' recs3).
+  (* the stored votes reported by this step (at a finalisation: the votes that were counted) must be
+     exactly the votes in force: the last accepted vote of each person *)
+  let fc := flat_map (fun e : Z * list (Z * Z) =>
+                        match find_rec (fst e) recs3 with
+                        | Some r => cl (list_eqb zz_eqb (r_votes r) (snd e))
+                                       (match hp with HRotate _ _ => "stored_votes_after_rotation_differ_from_one_vote_per_person"
+                                                 | _ => "counted_votes_differ_from_last_accepted_vote_per_person" end)
+                        | None => ["votes_of_unknown_proposal"%string] end) (o_fvotes o) in
+  (tc ++ ac ++ wc ++ oc ++ rej ++ sc ++ fc, mkK w' recs3).
 
 Fixpoint ck_run (k : ck) (l : list (Z * Z * hop * obs)) : list string :=
   match l with [] => [] | st :: r => let '(c, k') := ck_step k st in c ++ ck_run k' r end.
